@@ -27,6 +27,9 @@ func init() {
 			{ID: "C16.R6", Text: "the snapshot gauges are those of the tracked position: a tracked offset's snapshot range is never changed in place by a later marker (same rule as C06.R3)", Run: c06r3},
 			{ID: "C16.R7", Text: "the position gauges move with the work done: acknowledgements and absorbed events move the tracked position (same rule as C04.R10)", Run: func(c *Ctx, id string) { ackMoves(c, id); absorbMoves(c, id) }},
 			{ID: "C16.R8", Text: "every vBucket is reported: every loop over a concurrent map runs to completion: the Range callback returns true on every path (frozen exception: markAbsentInstances stops at the error it returns)", Run: rangeComplete("metric.")},
+			{ID: "C16.R9", Text: "the active-stream count is not lowered by ends of a previous session: End forwards ⇔ ¬endClosed (same rule as C12.R4)", Run: c12r4},
+			{ID: "C16.R10", Text: "counters count this session's events of this stream: NewObserver gives every observer a fresh metrics object (no package-level registry) and wires its parameters unchanged", Run: constructorWiring(wireObserver)},
+			{ID: "C16.R11", Text: "scraping neither blocks: the stream getters behind the collector and the state endpoints only read fields — no lock, channel operation, wait or sleep", Run: gettersDoNotBlock},
 			{ID: "C16.R5", Text: "active-stream count: set at open, decremented once per final end only (same rules as C12.R1, C12.R2)", Run: func(c *Ctx, id string) { c12r1(c, id); c12r2counter(c, id) }},
 		},
 	})
